@@ -106,6 +106,90 @@ theorem C17_join_roundtrip_drop_empty (d : Str) (items : List Str) (esc : Option
     Except.bind, pure, Except.pure]
   simp
 
+/-- **C17 (list of lists, join round trip; fix C17-i).**  Inner items joined with the inner
+delimiter, the lists joined with the outer one; no item contains a character of either
+delimiter, the inner delimiter contains no character of the outer one, there is at least one
+list and every list has at least one item (`''.split(d) == ['']`, as in the flat theorem).
+* `parse_empty=True`: `deserialize_list_of_lists` returns the lists — empty items included (before
+  the fix the inner call ran with `parse_empty=False` and dropped them), the list `['']` included.
+* `parse_empty=False` (the default): a list whose joined text is empty — exactly the list `['']`,
+  `C17_sublist_text_empty_iff` — is dropped, and every other list loses its empty items (a list of
+  several empty items comes back as `[]`). -/
+theorem C17_list_of_lists_roundtrip (d ds : Str) (lists : List (List Str)) (hd : d ≠ []) (hds : ds ≠ [])
+    (hne : lists ≠ []) (hine : ∀ l ∈ lists, l ≠ [])
+    (hc : ∀ l ∈ lists, ∀ it ∈ l, Clean d it ∧ Clean ds it) (hdd : Clean d ds) :
+    deserializeListOfLists (join d (lists.map (join ds))) d ds true = .ok lists
+    ∧ deserializeListOfLists (join d (lists.map (join ds))) d ds false
+        = .ok ((lists.filter (fun l => !(join ds l).isEmpty)).map (fun l => l.filter (fun it => !it.isEmpty))) := by
+  have hne' : lists.map (join ds) ≠ [] := by cases lists <;> simp_all
+  have hclean : ∀ t ∈ lists.map (join ds), Clean d t := by
+    intro t ht
+    obtain ⟨l, hl, rfl⟩ := List.mem_map.1 ht
+    exact clean_join d ds l (fun it hit => (hc l hl it hit).1) hdd
+  constructor
+  · unfold deserializeListOfLists
+    rw [C17_join_roundtrip d _ none hd hne' hclean (by intro e he; cases he)]
+    simp only [bind, Except.bind]
+    rw [List.mapM_map]
+    have := mapM_ok (fun l => deserializeList (join ds l) ds true none) id lists (by
+      intro l hl
+      exact C17_join_roundtrip ds l none hds (hine l hl) (fun it hit => (hc l hl it hit).2)
+        (by intro e he; cases he))
+    have hfun : ((fun it => deserializeList it ds true none) ∘ join ds)
+        = (fun l => deserializeList (join ds l) ds true none) := rfl
+    rw [hfun, this]
+    simp
+  · unfold deserializeListOfLists
+    rw [C17_join_roundtrip_drop_empty d _ none hd hne' hclean (by intro e he; cases he)]
+    simp only [bind, Except.bind]
+    rw [List.filter_map, List.mapM_map]
+    apply mapM_ok
+    intro l hl
+    have hl' : l ∈ lists := (List.mem_filter.1 hl).1
+    exact C17_join_roundtrip_drop_empty ds l none hds (hine l hl') (fun it hit => (hc l hl' it hit).2)
+      (by intro e he; cases he)
+
+/-- which lists the default `parse_empty=False` drops: the joined text of a non-empty list is empty
+exactly for `['']` -/
+theorem C17_sublist_text_empty_iff (ds : Str) (hds : ds ≠ []) (l : List Str) (hl : l ≠ []) :
+    (join ds l).isEmpty = true ↔ l = [[]] := by
+  rw [List.isEmpty_iff]
+  exact join_eq_nil_iff ds hds l hl
+
+/-- the audit's witness of C17-i and the corner cases, on the model of the fixed code -/
+theorem C17_list_of_lists_witness :
+    deserializeListOfLists ['a', ',', ',', 'b', ';', 'c'] [';'] [','] true = .ok [[['a'], [], ['b']], [['c']]]
+    ∧ deserializeListOfLists ['a', ',', ',', 'b', ';', ';', 'c'] [';'] [','] true
+        = .ok [[['a'], [], ['b']], [[]], [['c']]]
+    ∧ deserializeListOfLists ['a', ',', ',', 'b', ';', ';', ',', ';', 'c'] [';'] [','] false
+        = .ok [[['a'], ['b']], [], [['c']]] := by
+  decide
+
+/-- `deserialize_fixed_list`: the items, padded with the default item or cut to the fixed length -/
+theorem C17_fixed_list (d : Str) (items : List Str) (n : Nat) (dflt : Option Str) (hd : d ≠ [])
+    (hne : items ≠ []) (hc : ∀ it ∈ items, Clean d it) :
+    deserializeFixedList (join d items) d n dflt true
+        = .ok ((items.map some ++ List.replicate n dflt).take n)
+    ∧ (deserializeFixedList (join d items) d n dflt true).toOption.map List.length = some n := by
+  unfold deserializeFixedList
+  rw [C17_join_roundtrip d items none hd hne hc (by intro e he; cases he)]
+  refine ⟨rfl, ?_⟩
+  simp [bind, Except.bind, pure, Except.pure, Except.toOption]
+
+/-- `get_value_by_tag`: the value of `tag` in `k=v;…`; the default value when the tag is missing,
+has no `=` (it then *holds* the default value) or has the empty value -/
+theorem C17_value_by_tag_examples :
+    getValueByTag ['b'] "a;b=1;c=".toList [';'] ['='] none none = .ok (some ['1'])
+    ∧ getValueByTag ['a'] "a;b=1;c=".toList [';'] ['='] none (some ['D']) = .ok (some ['D'])
+    ∧ getValueByTag ['c'] "a;b=1;c=".toList [';'] ['='] none (some ['D']) = .ok (some ['D'])
+    ∧ getValueByTag ['z'] "a;b=1;c=".toList [';'] ['='] none none = .ok none := by
+  decide
+
+example : Clean [';'] [','] ∧ join [';'] ([[['a'], [], ['b']], [[]], [['c']]].map (join [','])) = "a,,b;;c".toList := by
+  decide
+example : deserializeFixedList "a;;b".toList [';'] 5 none true = .ok [some ['a'], some [], some ['b'], none, none] := by decide
+example : deserializeFixedList "a;;b".toList [';'] 2 none false = .ok [some ['a'], some ['b']] := by decide
+
 /-! ## key=value and mappings -/
 
 /-- **C17 (default value).**  An item in which the equal tag does not occur yields
@@ -120,7 +204,7 @@ theorem C17_key_value (eq k v : Str) (dk dv : Option Str) (heq : eq ≠ []) (hk 
   rw [keyValue, if_neg heq, splitAux_pair eq k v heq hk]
 
 /-- `unescape(deserialize_dict(serialize_dict(v, d, eq), d, equal_tag=eq))` -/
-def dictRoundTrip (d eq : Str) (v : Val) : Option (List (Str × Str)) :=
+def dictRoundTrip (d eq : Str) (v : Val) : Option (List (Str × Option Str)) :=
   match serializeDict d eq v with
   | .ok (some text) =>
     match deserializeDict text d eq false none none with
@@ -141,7 +225,7 @@ theorem C17_dict_roundtrip (d eq : Str) (c : Cls) (m : List (Str × Str))
     (hd : d ≠ []) (heq : eq ≠ []) (hsd : SafeSep d) (hse : SafeSep eq) (hdis : ∀ ch ∈ eq, ch ∉ d)
     (hw : WideOk d eq)
     (hkeys : (m.map Prod.fst).Nodup) (hk : ∀ kv ∈ m, Clean d kv.1 ∧ Clean eq kv.1) :
-    dictRoundTrip d eq (flatVal c m) = some m := by
+    dictRoundTrip d eq (flatVal c m) = some (m.map (fun kv => (kv.1, some kv.2))) := by
   unfold dictRoundTrip
   rw [serializeDict_flat d eq heq c m]
   simp only
@@ -198,6 +282,216 @@ theorem C17_dict_roundtrip (d eq : Str) (c : Cls) (m : List (Str × Str))
   rw [dictOfPairs_nodup _ (by rw [List.map_map]; exact hkeys)]
   rw [unescapeDict_ok m (escapeValue (dangerous d eq))
     (fun kv _ => unescape_escapeValue _ _ hb)]
+
+/-- `unescape(deserialize_dict(serialize_dict(v, d, eq, generate_empty=ge, generate_none=gn), d,
+equal_tag=eq, default_value=dv))` -/
+def dictRoundTripF (d eq : Str) (ge gn : Bool) (dv : Option Str) (v : Val) :
+    Option (List (Str × Option Str)) :=
+  match ser ⟨d, eq, ge, gn, 0, 0⟩ 0 v with
+  | .ok (some text) =>
+    match deserializeDict text d eq false none dv with
+    | .ok ps =>
+      match unescapeDict ps with
+      | .ok r => some r
+      | .error _ => none
+    | .error _ => none
+  | _ => none
+
+/-- **C17 (flat mapping round trip under `generate_empty` / `generate_none`, composed with the
+default value; fix C17-h).**  A flat mapping whose values are strings or `None`, serialised with
+any setting of the two flags, deserialised with any default value `dv` and unescaped, comes back
+entry by entry, in order: an entry written with the equal tag (`writesEq`: a non-empty string
+always, `''` iff `generate_empty`, `None` iff `generate_none or generate_empty`) comes back as its
+string (`None` as `''`); an entry written as a bare key comes back with the — unescaped — default
+value, `None` included: the call does not raise (before the fix `None.copy()` raised
+`AttributeError` as soon as one key had got the default value).  A bare key must be non-empty
+(the empty item is dropped by `parse_empty=False`).  Separators as in `C17_dict_roundtrip`. -/
+theorem C17_dict_roundtrip_flags (d eq : Str) (c : Cls) (ge gn : Bool) (m : List (Str × Option Str))
+    (dv dvu : Option Str)
+    (hd : d ≠ []) (heq : eq ≠ []) (hsd : SafeSep d) (hse : SafeSep eq) (hdis : ∀ ch ∈ eq, ch ∉ d)
+    (hw : WideOk d eq)
+    (hkeys : (m.map Prod.fst).Nodup) (hk : ∀ kv ∈ m, Clean d kv.1 ∧ Clean eq kv.1)
+    (hbare : ∀ kv ∈ m, writesEq ge gn kv.2 = false → kv.1 ≠ [])
+    (hdv : unescapeOpt dv = .ok dvu) :
+    dictRoundTripF d eq ge gn dv (flatValO c m)
+      = some (m.map (fun kv => (kv.1, if writesEq ge gn kv.2 then some (kv.2.getD []) else dvu))) := by
+  unfold dictRoundTripF
+  have hitems : ∀ kv ∈ m, itemOfF d eq ge gn kv ≠ [] := by
+    intro kv hkv
+    unfold itemOfF
+    cases hwq : writesEq ge gn kv.2 with
+    | true =>
+      cases eq with
+      | nil => exact absurd rfl heq
+      | cons a t => simp
+    | false => simpa using hbare kv hkv hwq
+  have hser := ser_flatF d eq ge gn c m hitems
+  simp only [cF] at hser
+  rw [hser]
+  simp only
+  have hb : '\\' ∈ dangerous d eq := by simp [dangerous]
+  have hdsub : ∀ ch ∈ d, ch ∈ dangerous d eq := by intro ch h; simp [dangerous, h]
+  have hud : (∀ a ∈ dangerous d eq, a.toNat < 0x100) ∨ (∀ c ∈ d, c ≠ 'u' ∧ c ≠ 'U') :=
+    wideOk_dangerous d eq d hw (fun c h => by simp [h])
+  have hlist : deserializeList (join d (m.map (itemOfF d eq ge gn))) d false none
+      = .ok (m.map (itemOfF d eq ge gn)) := by
+    cases hm : m with
+    | nil => simp [join, deserializeList, splitWithEscape, splitWithEscapeD, hd, splitMax, Esc.splitAux, bind,
+        Except.bind, pure, Except.pure]
+    | cons kv0 m' =>
+      rw [← hm]
+      have hne : m.map (itemOfF d eq ge gn) ≠ [] := by rw [hm]; simp
+      have hclean : ∀ it ∈ m.map (itemOfF d eq ge gn), Clean d it := by
+        intro it hit
+        obtain ⟨kv, hkv, rfl⟩ := List.mem_map.1 hit
+        intro ch hch
+        unfold itemOfF at hch
+        split at hch
+        · simp only [List.mem_append] at hch
+          rcases hch with (hch | hch) | hch
+          · exact (hk kv hkv).1 ch hch
+          · exact hdis ch hch
+          · exact escapeValue_clean _ d _ hsd hdsub hud ch hch
+        · exact (hk kv hkv).1 ch hch
+      rw [C17_join_roundtrip_drop_empty d _ none hd hne hclean (by intro e he; cases he)]
+      congr 1
+      apply List.filter_eq_self.2
+      intro it hit
+      obtain ⟨kv, hkv, rfl⟩ := List.mem_map.1 hit
+      have := hitems kv hkv
+      cases hi : itemOfF d eq ge gn kv with
+      | nil => exact absurd hi this
+      | cons _ _ => rfl
+  have hpairs : (m.map (itemOfF d eq ge gn)).mapM (keyValue eq none dv)
+      = .ok (m.map (fun kv => (kv.1,
+          if writesEq ge gn kv.2 then some (escapeValue (dangerous d eq) (kv.2.getD [])) else dv))) := by
+    rw [List.mapM_map]
+    apply mapM_ok
+    intro kv hkv
+    simp only [Function.comp, itemOfF]
+    cases hwq : writesEq ge gn kv.2 with
+    | true =>
+      simp only [if_true]
+      exact C17_key_value eq _ _ none dv heq (hk kv hkv).2
+    | false =>
+      simp only [Bool.false_eq_true, if_false]
+      simp [keyValue, heq, splitAux_clean eq (some 1) kv.1 heq (hk kv hkv).2, truthyKey]
+  simp only [deserializeDict, hlist, hpairs, bind, Except.bind, pure, Except.pure]
+  rw [dictOfPairs_nodup _ (by rw [List.map_map]; exact hkeys)]
+  rw [unescapeDict_map m _ (fun kv => (kv.1, if writesEq ge gn kv.2 then some (kv.2.getD []) else dvu))]
+  intro kv _
+  refine ⟨rfl, ?_⟩
+  cases writesEq ge gn kv.2 with
+  | true => simp [unescapeOpt, unescape_escapeValue _ _ hb, Except.map]
+  | false => simpa using hdv
+
+/-- the statement's two clauses composed: with `default_value=''` a mapping of strings comes back
+**the same** whatever the flags are (a value `''` that `generate_empty=False` left out is the
+default value again) -/
+theorem C17_dict_roundtrip_empty_default (d eq : Str) (c : Cls) (ge gn : Bool) (m : List (Str × Str))
+    (hd : d ≠ []) (heq : eq ≠ []) (hsd : SafeSep d) (hse : SafeSep eq) (hdis : ∀ ch ∈ eq, ch ∉ d)
+    (hw : WideOk d eq)
+    (hkeys : (m.map Prod.fst).Nodup) (hk : ∀ kv ∈ m, Clean d kv.1 ∧ Clean eq kv.1)
+    (hbare : ∀ kv ∈ m, ge = false → kv.2 = [] → kv.1 ≠ []) :
+    dictRoundTripF d eq ge gn (some []) (flatValO c (m.map (fun kv => (kv.1, some kv.2))))
+      = some (m.map (fun kv => (kv.1, some kv.2))) := by
+  rw [C17_dict_roundtrip_flags d eq c ge gn _ (some []) (some []) hd heq hsd hse hdis hw
+    (by rw [List.map_map]; exact hkeys)
+    (by intro kv hkv; obtain ⟨x, hx, rfl⟩ := List.mem_map.1 hkv; exact hk x hx)
+    (by
+      intro kv hkv hwq
+      obtain ⟨x, hx, rfl⟩ := List.mem_map.1 hkv
+      cases hv : x.2 with
+      | nil =>
+        simp only [hv, writesEq] at hwq
+        exact hbare x hx hwq hv
+      | cons a t => simp [hv, writesEq] at hwq)
+    (by decide)]
+  rw [List.map_map]
+  congr 1
+  apply List.map_congr_left
+  intro kv _
+  simp only [Function.comp, Option.getD_some]
+  cases hv : kv.2 with
+  | nil => cases ge <;> simp [writesEq]
+  | cons a t => simp [writesEq]
+
+/-- `unescape(deserialize_dict(s, d, equal_tag=eq, default_value=dv))` -/
+def deserUnescape (s d eq : Str) (dv : Option Str) : Option (List (Str × Option Str)) :=
+  match deserializeDict s d eq false none dv with
+  | .ok ps =>
+    match unescapeDict ps with
+    | .ok r => some r
+    | .error _ => none
+  | .error _ => none
+
+/-- the audit's witnesses of C17-h on the model of the fixed code: `unescape(deserialize_dict('a;b=1'))`
+is `{'a': None, 'b': '1'}`, and `{'a': '', 'b': 'x'}` written with `generate_empty=False` (`a;b=x`)
+comes back with `a` holding the default value -/
+theorem C17_default_unescape_witness :
+    deserUnescape ['a', ';', 'b', '=', '1'] [';'] ['='] none = some [(['a'], none), (['b'], some ['1'])]
+    ∧ dictRoundTripF [';'] ['='] false true none (flatValO .plain [(['a'], some []), (['b'], some ['x'])])
+      = some [(['a'], none), (['b'], some ['x'])]
+    ∧ dictRoundTripF [';'] ['='] false true (some []) (flatValO .plain [(['a'], some []), (['b'], some ['x'])])
+      = some [(['a'], some []), (['b'], some ['x'])] := by
+  decide
+
+/-- **C17 (`unescape` of a mapping with default values; fix C17-h).**  `unescape` of a mapping whose
+values are strings or `None` fails only because one of its *string* values is not decodable
+(`UnicodeDecodeError`, or a `\\N{…}` escape outside the model); a `None` value never makes it
+fail and is kept -/
+theorem C17_unescape_none_kept (ps : List (Str × Option Str)) :
+    (∀ e, unescapeDict ps = .error e → ∃ kv ∈ ps, ∃ s, kv.2 = some s ∧ unescape s = .error e)
+    ∧ (∀ r, unescapeDict ps = .ok r →
+        r.map Prod.fst = ps.map Prod.fst ∧ ∀ k, (k, none) ∈ ps ↔ (k, none) ∈ r) := by
+  refine ⟨fun e h => unescapeDict_error ps e h, ?_⟩
+  induction ps with
+  | nil => intro r h; cases h; simp
+  | cons p ps ih =>
+    obtain ⟨k, v⟩ := p
+    intro r h
+    simp only [unescapeDict] at h
+    cases hv : unescapeOpt v with
+    | error e => rw [hv] at h; cases h
+    | ok v' =>
+      rw [hv] at h
+      cases hr : unescapeDict ps with
+      | error e => rw [hr] at h; cases h
+      | ok r' =>
+        rw [hr] at h
+        simp only [Except.map] at h
+        cases h
+        obtain ⟨i1, i2⟩ := ih r' hr
+        have hnone : v = none ↔ v' = none := by
+          cases v with
+          | none => simp [unescapeOpt] at hv; simp [hv.symm]
+          | some s =>
+            simp only [unescapeOpt] at hv
+            cases hu : unescape s with
+            | error e => rw [hu] at hv; cases hv
+            | ok s' => rw [hu] at hv; simp only [Except.map] at hv; cases hv; simp
+        refine ⟨by simp [i1], fun k' => ?_⟩
+        simp only [List.mem_cons, Prod.mk.injEq, i2 k']
+        constructor
+        · rintro (⟨rfl, h⟩ | h)
+          · exact .inl ⟨rfl, (hnone.mp h.symm).symm⟩
+          · exact .inr h
+        · rintro (⟨rfl, h⟩ | h)
+          · exact .inl ⟨rfl, (hnone.mpr h.symm).symm⟩
+          · exact .inr h
+
+/-! Non-vacuity (flags): every way of writing an entry occurs -/
+example : ser ⟨[';'], ['='], false, false, 0, 0⟩ 0
+      (flatValO .plain [(['a'], some []), (['n'], none), (['b'], some ['x', ';'])])
+    = .ok (some "a;n;b=x\\x3b".toList) := by decide
+example : dictRoundTripF [';'] ['='] false false (some ['D']) (flatValO .plain [(['a'], some []), (['n'], none), (['b'], some ['x', ';'])])
+    = some [(['a'], some ['D']), (['n'], some ['D']), (['b'], some ['x', ';'])] := by decide
+example : dictRoundTripF [';'] ['='] false true none (flatValO .plain [(['a'], some []), (['n'], none), (['b'], some ['x', ';'])])
+    = some [(['a'], none), (['n'], some []), (['b'], some ['x', ';'])] := by decide
+example : dictRoundTripF [';'] ['='] true false none (flatValO .plain [(['a'], some []), (['n'], none)])
+    = some [(['a'], some []), (['n'], some [])] := by decide
+example : writesEq false false none = false ∧ writesEq false true none = true ∧ writesEq false true (some []) = false := by decide
+example : unescapeOpt (some "\\x41".toList) = .ok (some ['A']) := by decide
 
 /-- **C17 (reserved characters in values are protected).**  The text written for a value — any
 text — contains no character of the delimiter or of the equal tag, no brace, bracket or double
@@ -376,10 +670,10 @@ theorem C17_ini_comment_line_ignored (eq : Str) (pre post : List Str) (c : Str) 
 /-- fixed finding C17-e: text outside ASCII survives `unescape` (before the fix `{'k':'é'}` came
 back as `{'k':'Ã©'}`), and so does a reserved character above U+00FF (it was written `\\x20ac`) -/
 theorem C17_nonascii_example :
-    dictRoundTrip [';'] ['='] (flatVal .plain [(['k'], ['é', '€', ';'])]) = some [(['k'], ['é', '€', ';'])]
+    dictRoundTrip [';'] ['='] (flatVal .plain [(['k'], ['é', '€', ';'])]) = some [(['k'], some ['é', '€', ';'])]
     ∧ serializeDict ['€'] ['='] (flatVal .plain [(['k'], ['a', '€', 'é'])])
         = .ok (some ['k', '=', 'a', '\\', 'u', '2', '0', 'a', 'c', 'é'])
-    ∧ dictRoundTrip ['€'] ['='] (flatVal .plain [(['k'], ['a', '€', 'é'])]) = some [(['k'], ['a', '€', 'é'])] := by
+    ∧ dictRoundTrip ['€'] ['='] (flatVal .plain [(['k'], ['a', '€', 'é'])]) = some [(['k'], some ['a', '€', 'é'])] := by
   decide
 
 /-- a list that directly contains `None` makes `serialize_dict` raise `TypeError` (`str += None`);
@@ -414,7 +708,7 @@ example : WideOk [';'] ['='] ∧ WideOk ['u'] ['é'] ∧ WideOk ['€', ';'] ['=
   refine ⟨?_, ?_, ?_, ?_⟩ <;> decide
 example : escapeValue (dangerous [';'] ['=']) "a=b;{".toList = "a\\x3db\\x3b\\x7b".toList := by decide
 example : dictRoundTrip [';'] ['='] (flatVal .n0 [(['k'], "a;b={\\}\"".toList), ([], [])])
-    = some [(['k'], "a;b={\\}\"".toList), ([], [])] := by decide
+    = some [(['k'], some "a;b={\\}\"".toList), ([], some [])] := by decide
 example : serializeDict [';'] ['='] (.dict .plain [(['k'], .str []), (['j'], .dict .plain [(['a'], .int 1)])])
     = .ok (some "k=;j={a=1}".toList) := by decide
 example : noNone (.dict .plain [(['k'], .none), (['j'], .list .plain [.dict .plain []])]) = true := by decide
